@@ -152,10 +152,8 @@ func c04(r *core.Run) {
 				allInstrs(s.bo.Fn, func(in ssa.Instruction) {
 					if c, ok := in.(*ssa.Call); ok {
 						for _, cal := range p.Callees(c) {
-							for _, o := range p.StoreOps(cal) {
-								if o.Kind == "Set" && o.Module+"/"+o.Prefix == "storage/PaymentGauge/value/" {
-									ctor = c
-								}
+							if isGaugeCtor(p, cal) {
+								ctor = c
 							}
 						}
 					}
@@ -182,10 +180,8 @@ func c04(r *core.Run) {
 							allInstrs(caller, func(in2 ssa.Instruction) {
 								if c, ok := in2.(*ssa.Call); ok {
 									for _, cal := range p.Callees(c) {
-										for _, o := range p.StoreOps(cal) {
-											if o.Kind == "Set" && o.Module+"/"+o.Prefix == "storage/PaymentGauge/value/" {
-												ctor = c
-											}
+										if isGaugeCtor(p, cal) {
+											ctor = c
 										}
 									}
 								}
@@ -218,7 +214,7 @@ func c04(r *core.Run) {
 					r.Check(same, "C04/R2", sp.key+":gauge-funded=recorded", p.InstrPos(s.bo.Instr), "gauge constructor and funding use the same value", "the gauge is funded with a different value than the one handed to its constructor (e.g. the returned record's Coins, which after a merge is the total of several deposits): the account holds more or less than the record says and the gauge over- or under-releases")
 					// the record stores exactly that argument as Coins
 					callee := p.Callees(ctor)[0]
-					for _, o := range p.StoreOps(callee) {
+					for _, o := range gaugeSetOps(p, callee) {
 						if o.Kind == "Set" {
 							// value marshalled: field Coins ⊵ coins param only
 							for _, b := range callee.Blocks {
@@ -569,8 +565,21 @@ func mergesExisting(p *core.Program, v ssa.Value, ctor *ssa.Function, set *core.
 	// the receiver comes from a record read under the same key
 	tb := core.NewTermBuilder(p)
 	setKey := tb.Term(set.Key)
+	if set.Instr.Parent() != ctor {
+		// written through an accessor keyed by the record's own Id: the key is built from the Id the constructor
+		// gives the record
+		setKey = ""
+		allInstrs(ctor, func(in ssa.Instruction) {
+			if al, ok := in.(*ssa.Alloc); ok && core.TypeName(al.Type()) == "x/storage/types.PaymentGauge" {
+				if sts := fieldStores(al, "Id"); len(sts) > 0 {
+					setKey = tb.Term(sts[len(sts)-1].Val)
+				}
+			}
+		})
+	}
 	for _, o := range p.StoreOps(ctor) {
-		if o.Kind == "Get" && o.Module+"/"+o.Prefix == set.Module+"/"+set.Prefix && tb.Term(o.Key) == setKey {
+		kt := tb.Term(o.Key)
+		if o.Kind == "Get" && o.Module+"/"+o.Prefix == set.Module+"/"+set.Prefix && (kt == setKey || (setKey != "" && strings.Contains(kt, setKey))) {
 			// the receiver is the Coins field of a record decoded in this constructor
 			if u, ok := c.Call.Args[0].(*ssa.UnOp); ok {
 				if fa, ok := u.X.(*ssa.FieldAddr); ok && core.FieldName(fa.X.Type(), fa.Field) == "Coins" {
@@ -583,4 +592,46 @@ func mergesExisting(p *core.Program, v ssa.Value, ctor *ssa.Function, set *core.
 		}
 	}
 	return false
+}
+
+// isGaugeCtor: fn builds a payment gauge record, stores it (directly or through the record setter) and returns it.
+func isGaugeCtor(p *core.Program, fn *ssa.Function) bool {
+	if fn == nil || fn.Blocks == nil {
+		return false
+	}
+	res := fn.Signature.Results()
+	ret := false
+	for i := 0; i < res.Len(); i++ {
+		if strings.HasSuffix(res.At(i).Type().String(), "types.PaymentGauge") {
+			ret = true
+		}
+	}
+	return ret && len(gaugeSetOps(p, fn)) > 0
+}
+
+// gaugeSetOps: the Set operations on the gauge prefix performed by fn itself or by a thin accessor it calls.
+func gaugeSetOps(p *core.Program, fn *ssa.Function) []*core.StoreOp {
+	var out []*core.StoreOp
+	for _, o := range p.StoreOps(fn) {
+		if o.Kind == "Set" && o.Module+"/"+o.Prefix == "storage/PaymentGauge/value/" {
+			out = append(out, o)
+		}
+	}
+	allInstrs(fn, func(in ssa.Instruction) {
+		c, ok := in.(ssa.CallInstruction)
+		if !ok {
+			return
+		}
+		for _, cal := range p.Callees(c) {
+			if cal == fn || !isAccessorFn(p, cal) {
+				continue
+			}
+			for _, o := range p.StoreOps(cal) {
+				if o.Kind == "Set" && o.Module+"/"+o.Prefix == "storage/PaymentGauge/value/" {
+					out = append(out, o)
+				}
+			}
+		}
+	})
+	return out
 }
